@@ -81,7 +81,9 @@ class bc_vector_16 {
             m_nexts[i] = bit_vector(next_flags[i], true, false);
         }
         m_shorts[m_num_levels].build(shorts[m_num_levels]);
-        m_links = compact_vector(links);
+        if (!links.empty()) {
+            m_links = compact_vector(links);
+        }
         m_leaves = bit_vector(leaves, true, false);
     }
 
